@@ -96,6 +96,19 @@ Inv_All ==
          LET m2 == [st.m EXCEPT !.parts = (st.m.parts \ {p}) \cup {[p EXCEPT !.h = "new"]}]
          IN <<"media-overwritten", p.cls>> \in W(st, oo, ObsOfModel(m2, ExpToks(st)))
 
+\* dropping or re-typing any claimed part is detected and named
+Inv_DetectParts ==
+  phase = "open" =>
+    LET o   == st.o
+        oo  == ObsOfModel(o, BodyToks(o.body))
+        now == ObsOfModel(st.m, ExpToks(st))
+    IN \A p \in {q \in o.parts : q.n \notin st.regen} :
+         LET lbl == LabelOfPart(o, p.n)
+             dropped == [now EXCEPT !.parts = {x \in now.parts : x.n # p.n}]
+             retyped == [now EXCEPT !.parts = {IF x.n = p.n THEN [x EXCEPT !.ct = "other"] ELSE x : x \in now.parts}]
+         IN /\ Viol_Parts(oo, o, st.regen, dropped) = {<<IF IsMedia(o, p.n) THEN "media-dropped" ELSE "part-dropped", lbl>>}
+            /\ Viol_Parts(oo, o, st.regen, retyped) = {<<"content-type-changed", lbl>>}
+
 Inv_ShapeWellFormed ==
   phase = "open" =>
     LET o == st.o IN
